@@ -59,6 +59,8 @@ class DelegWorld(EnvelopeWorld):
         else:
             md = {"type": op["type"], "version": op.get("version", 1), "metadata_spec_version": "0.6.0",
                   "timestamp": "2021-01-01T00:00:00Z", "expiration": "2031-01-01T00:00:00Z", "delegations": dels}
+        if op.get("no_version") and md.get("type") != "root":
+            md = {k: v for k, v in md.items() if k != "version"}      # legal for non-root metadata: timestamp only
         T = {"signatures": {}, "signed": md}
         if op.get("mal"):
             p, v = op["mal"]
@@ -207,7 +209,7 @@ class DelegWorld(EnvelopeWorld):
         nk = len(self.keys)
         if not self.trusted or (len(self.trusted) < 3 and rng.random() < 0.05):
             op = {"op": "trusted", "type": rng.choice(["root", "key_mgr"]), "dels": self._gen_dels(rng),
-                  "version": rng.choice([1, 2, 7]), "via": rng.choice(["builder", "direct"])}
+                  "version": rng.choice([1, 2, 7]), "via": rng.choice(["builder", "direct"]), "no_version": rng.random() < 0.2}
             if rng.random() < 0.12:
                 fake = {"signatures": {}, "signed": {"type": "root", "version": 1, "metadata_spec_version": "0.6.0",
                         "timestamp": "", "expiration": "", "delegations": self._dels(op["dels"])}}
